@@ -765,6 +765,22 @@ func (c *SpecCtx) call(x *SCall) Val {
 			bk = types.Uint8
 		}
 		return ival(e.wrap(types.Typ[bk], c.evalInt(x.Args[0])))
+	case "elemptrs":
+		// true in verifications whose root contract models pointers to slice elements
+		return bval(fmt.Sprint(e.curElemPtrs))
+	case "elemptr":
+		// elemptr(s, k): the pointer &s[k]
+		e.needEptr()
+		sv := arg(0)
+		sl, ok := sv.Ty.Underlying().(*types.Slice)
+		if !ok {
+			c.fail("elemptr of non-slice")
+		}
+		return Val{T: "(eptr (s_base " + sv.T + ") (+ (s_off " + sv.T + ") " + c.evalInt(x.Args[1]) + "))", Ty: types.NewPointer(sl.Elem())}
+	case "toiface":
+		// toiface(v): v boxed into an interface value (dynamic type = static type of v)
+		v := arg(0)
+		return Val{T: e.mkIface(v.Ty, s.term(v)), Ty: types.NewInterfaceType(nil, nil)}
 	case "dynalloc":
 		return ival(s.heapTerm("gh:$dynalloc", "Int"))
 	case "unix":
